@@ -1,3 +1,25 @@
+// development copy only: bin/check writes its own go.mod (replace -> scratch tree) next to a copy of these sources
 module vh
 
 go 1.23.4
+
+require (
+	github.com/karino2/folang/pkg/frt v0.0.0
+	github.com/karino2/folang/pkg/slice v0.0.0
+	github.com/karino2/folang/pkg/dict v0.0.0
+	github.com/karino2/folang/pkg/strings v0.0.0
+	github.com/karino2/folang/pkg/buf v0.0.0
+	github.com/karino2/folang/pkg/sys v0.0.0
+)
+
+replace github.com/karino2/folang/pkg/frt => /repo/pkg/frt
+
+replace github.com/karino2/folang/pkg/slice => /repo/pkg/slice
+
+replace github.com/karino2/folang/pkg/dict => /repo/pkg/dict
+
+replace github.com/karino2/folang/pkg/strings => /repo/pkg/strings
+
+replace github.com/karino2/folang/pkg/buf => /repo/pkg/buf
+
+replace github.com/karino2/folang/pkg/sys => /repo/pkg/sys
